@@ -47,8 +47,30 @@ ROWS = [
 EXTRA = {"strrchr_s": ["src/extmem/memrchr_s.c"], "strcasestr_s": []}
 
 
+# C05 (harness/h_qviol.c): per-function exceptions to the "must report" clauses, each from the function's documentation
+NOREP = {"strnlen_s": ["-DNOREP_DNULL", "-DNOREP_DZERO"], "wcsnlen_s": ["-DNOREP_DNULL", "-DNOREP_DZERO"]}
+RK1 = ("QK_NLEN", "QK_ISDIGIT", "QK_CLASS")
+
+
+def viol_jobs(tier, only_fn=None):
+    out = []
+    for row in ROWS:
+        name, f, T, qk, call = row[:5]
+        xdefs = [d for d in (row[5] if len(row) > 5 else []) if not d.startswith("-DFULLBYTES") and not d.startswith("-DCLSK")]
+        if only_fn and name != only_fn:
+            continue
+        files = sorted(set([f] + SUP + EXTRA.get(name, [])))
+        out.append(Job("%s.C05.args" % name, "C05", "h_qviol.c", files,
+                       defines=["-DT=%s" % T, "-DDN=3", "-DSN=3", "-DCALL=%s" % call, "-DRK=%d" % (1 if qk in RK1 else 0)] + xdefs + NOREP.get(name, []),
+                       unwind_default=6, memchecks=False, fn=name,
+                       bounds={"dest/src objects": 3, "dmax/slen": "arbitrary (truthful)", "NULL operands, src == dest": "symbolic"}, timeout=300))
+    return out
+
+
 def jobs(prop, tier, only_fn=None):
     out = []
+    if prop == "C05":
+        return viol_jobs(tier, only_fn)
     if prop not in ("C10", "C02"):
         return out
     for row in ROWS:
